@@ -30,6 +30,7 @@ pub struct Ctx {
     pub drop_panic_nth: Option<u64>,
     pub pred_panic_nth: Option<u64>,
     pub hasher_clone_panics: bool,
+    pub into_panics: bool,             // K::from(&k) (the Into conversion of entry_ref) panics
     pub drop_panics: u64,
     pub forgotten: u64,
     // ---- allocator ledger
@@ -205,11 +206,16 @@ impl Drop for Kd {
 }
 /// `entry_ref(&k)` builds the stored key with `K::from(&k)`: a new tracked object with the same
 /// id and stamp.
+pub fn into_tick() {
+    if with_ctx(|c| c.into_panics) {
+        std::panic::panic_any(HvPanic("into"));
+    }
+}
 impl From<&Kd> for Kd {
-    fn from(k: &Kd) -> Kd { Kd::mk(k.id, k.stamp) }
+    fn from(k: &Kd) -> Kd { into_tick(); Kd::mk(k.id, k.stamp) }
 }
 impl From<&Kp> for Kp {
-    fn from(k: &Kp) -> Kp { *k }
+    fn from(k: &Kp) -> Kp { into_tick(); *k }
 }
 
 /// Value with drop glue (tracked).
@@ -304,7 +310,7 @@ impl Clone for Kn {
     }
 }
 impl From<&Kn> for Kn {
-    fn from(k: &Kn) -> Kn { Kn { id: k.id, stamp: k.stamp } }
+    fn from(k: &Kn) -> Kn { into_tick(); Kn { id: k.id, stamp: k.stamp } }
 }
 #[derive(PartialEq)]
 pub struct Vn(pub u64);
